@@ -5,4 +5,4 @@ for c in "$@"; do for l in $L; do d=/tmp/wt/$c/$R/$l; [ -f $d/patch.diff ] || { 
  mkdir -p /verif/seeded/$c$l; cp $d/patch.diff $d/meta.json /verif/seeded/$c$l/; cp $d/demo*.py /verif/seeded/$c$l/ 2>/dev/null
  sed -i -E 's|^(\s*)assert (pyxel\.__file__\.startswith\("/tmp/wt/C[0-9]+/?"\)\|"/tmp/wt/C[0-9]+/?" in pyxel\.__file__), pyxel\.__file__|\1print("pyxel under test:", pyxel.__file__)|' /verif/seeded/$c$l/demo*.py
  grep -l "parents\[2\]\|/tmp/wt" /verif/seeded/$c$l/demo*.py 2>/dev/null | sed 's/^/  CHECK PATHS: /'
- echo "$c$l /tmp/wt/K4" >> /tmp/confirm/queue; done; done
+ echo "$c$l /tmp/wt/K6" >> /tmp/confirm/queue; done; done
